@@ -1,6 +1,7 @@
 (* Evaluation entry points for C16 cases: remove_unloaded applied twice to a circuit. *)
 From stdpp Require Import strings gmap sets.
-From CG Require Export Base.Cases Base.Oracle Model.RemoveUnloaded Proofs.RemoveUnloadedProofs.
+From CG Require Export Base.Cases Model.RemoveUnloaded Proofs.RemoveUnloadedProofs.
+From CG Require Import Model.Queries.
 Open Scope string_scope.
 Open Scope list_scope.
 
@@ -20,7 +21,8 @@ Definition agree (k : case) : bool :=
     end
   end.
 
-(* the property judged on what the implementation returned: liveness by reachability (live_set_spec), independent of the worklist model *)
+(* the property judged on what the implementation returned: liveness by reachability (live_set_spec), independent of the worklist model;
+   is_cyclic decides has_cycle (QueriesProofs.is_cyclic_spec) *)
 Definition holds (k : case) : bool :=
   match k with
   | CRu C inp _ _ (Ok (Ca, removed)) (Ok (Cb, removed2)) =>
@@ -30,7 +32,7 @@ Definition holds (k : case) : bool :=
     closedb c && bbin_sinksb c &&
     bool_decide (NoDup removed) &&
     bool_decide (rs ⊆ dr) &&                                     (* nothing live, nothing of a kept type *)
-    (if acyclicb c && sources_undrivenb c then bool_decide (dr ⊆ rs) else true) &&   (* all dead logic *)
+    (if negb (is_cyclic c) && sources_undrivenb c then bool_decide (dr ⊆ rs) else true) &&   (* all dead logic *)
     bool_decide (c_g Ca = filter (λ p, p.1 ∉ rs) c) &&                              (* survivors untouched, removed nodes gone *)
     bool_decide (c_name Ca = c_name C ∧ c_bbs Ca = c_bbs C) &&
     bool_decide (Cb = Ca ∧ removed2 = [])                                          (* idempotent *)
